@@ -4,10 +4,8 @@ import (
 	"fmt"
 	"os"
 	"regexp"
-	"runtime"
 	"sort"
 	"strings"
-	"sync"
 
 	"verifharness/internal/hx"
 	"verifharness/internal/proto"
@@ -85,6 +83,33 @@ type mvalue struct {
 	// type to put in its place
 	subs   []*mcell
 	simple *mvalue
+	// parts / build: the operands of a nested value and the function that rebuilds the value
+	// from (simpler) operands: the shrinker simplifies inside a value with them
+	parts []*mvalue
+	build func(parts []*mvalue) *mvalue
+	op    string // nested-binary / nested-unary: the operator
+	wrap  string // nested: the kind of wrapper (conversion, slice-lit, arg, return, …)
+}
+
+// alts are simpler values to try in the place of v: a plain variable of its type, each operand
+// alone, and v rebuilt over a simpler operand.
+func (v *mvalue) alts() []*mvalue {
+	var out []*mvalue
+	if v.simple != nil {
+		out = append(out, v.simple)
+	}
+	for i, p := range v.parts {
+		out = append(out, p)
+		if v.build == nil {
+			continue
+		}
+		for _, a := range p.alts() {
+			q := append([]*mvalue{}, v.parts...)
+			q[i] = a
+			out = append(out, v.build(q))
+		}
+	}
+	return out
 }
 
 var mValues []*mvalue
@@ -181,9 +206,9 @@ func init() {
 	addV("uconst-complex", "", "1i", "0i")
 	addV("uconst-string", "", `"s"`, `""`, "cS")
 	addV("nil", "", "nil")
-	addV("ubool", "", "ga < gb", "gs1 == gs2", "v"+fmt.Sprint(mT("any").idx)+" != nil", "!(ga < gb)", "ga < gb && gf > 1", "gmi <= 1")
+	addV("ubool", "", "ga < gb", "gs1 == gs2", "v"+fmt.Sprint(mT("any").idx)+" != nil", "!(ga < gb)", "ga < gb && gf > 1", "gmi <= 1", "ga < 1 == true")
 	addV("ushift", "", "1 << gsh", "1.0 << gsh", "'a' << gsh", "1 << gshi", "cI << gsh")
-	addV("tconst", "int", "int(1)", "kI")
+	addV("tconst", "int", "int(1)", "kI", `len("abc")`)
 	addV("tconst", "int8", "int8(1)")
 	addV("tconst", "uint8", "uint8(200)")
 	addV("tconst", "float64", "float64(1.5)", "float64(1)")
@@ -232,12 +257,17 @@ func init() {
 	addV("conv", "any", "any("+vs("int")+")")
 	addV("conv", "error", "error("+vs("tp.Err")+")")
 	addV("conv", "tp.Stringer", "tp.Stringer("+vs("tp.Dur")+")")
+	addV("conv", "func()", "(func())("+vs("func()")+")")
+	addV("conv", "Fn", "Fn("+vs("func(int) string")+")")
+	addV("conv", "func(int) string", "(func(int) string)("+vs("Fn")+")")
+	addV("conv", "chan<- int", "(chan<- int)("+vs("chan int")+")")
+	addV("conv", "*int", "(*int)("+vs("PInt")+")")
 	addV("funclit", "func(int) string", `func(int) string { return "" }`)
 	addV("funclit", "func()", "func() {}")
 	addV("misc", "*int", "new(int)")
 	addV("misc", "[]int", "make([]int, 1)")
 	addV("misc", "chan int", "make(chan int)")
-	addV("misc", "int", "len("+vs("string")+")", `len("abc")`, vs("[]int")+"[0]", vs("map[string]int")+`["a"]`, vs("St")+".A",
+	addV("misc", "int", "len("+vs("string")+")", vs("[]int")+"[0]", vs("map[string]int")+`["a"]`, vs("St")+".A",
 		"*"+vs("*int"), "<-"+vs("chan int"), "<-"+vs("<-chan int"), vs("any")+".(int)", "cap("+vs("[]int")+")")
 	addV("misc", "error", vs("any")+".(error)")
 	addV("misc", "float64", "real("+vs("complex128")+")")
@@ -247,7 +277,7 @@ func init() {
 	addV("misc", "Sl", vs("Sl")+"[:1]")
 	addV("misc", "MyInt", vs("[]MyInt")+"[0]", vs("MyInt")+" + 1")
 	addV("misc", "MyStr", vs("MyStr")+` + "a"`)
-	addV("misc", "bool", vs("bool")+" && true", vs("int")+" < 1 == true")
+	addV("misc", "bool", vs("bool")+" && true")
 }
 
 // ---- cells and programs ----
@@ -258,8 +288,18 @@ var mContexts = []string{
 	"map-lit-key", "map-lit-value", "send", "map-index", "map-assign", "conversion", "compare", "compare-rev",
 	"switch-case", "append", "variadic", "tuple-assign", "field-assign", "deref-assign", "elem-assign",
 	"select-send", "const-decl", "type-assert", "type-switch",
+	// operands: x OP v with x a variable of type T (== and != are "compare")
+	"binop:+", "binop:-", "binop:*", "binop:/", "binop:%", "binop:&", "binop:|", "binop:^", "binop:&^",
+	"binop:<<", "binop:>>", "binop:&&", "binop:||", "binop:<", "binop:<=", "binop:>", "binop:>=",
+	// the type T plays no role (generated for one T only)
+	"expr", "unary:-", "unary:+", "unary:!", "unary:^", "unary:<-", "unary:*",
 	"range-slice", "range-map-key", "range-chan", "range-array-ptr",
 }
+
+const mRangeContexts = 4
+
+// mIgnoresT: the contexts in which only the value matters.
+func mIgnoresT(ctx string) bool { return ctx == "expr" || strings.HasPrefix(ctx, "unary:") }
 
 type mcell struct {
 	ctx string
@@ -292,7 +332,7 @@ func (c *mcell) lines() []string {
 	case "map-lit-value":
 		return []string{"_ = map[int]" + T + "{1: " + v + "}"}
 	case "send":
-		return []string{"ch := make(chan " + T + ", 1)", "ch <- " + v}
+		return []string{"ch := make(chan " + chanElem(T) + ", 1)", "ch <- " + v}
 	case "map-index":
 		return []string{"var m map[" + T + "]int", "_ = m[" + v + "]"}
 	case "map-assign":
@@ -303,9 +343,9 @@ func (c *mcell) lines() []string {
 		}
 		return []string{"_ = " + T + "(" + v + ")"}
 	case "compare":
-		return []string{"var x " + T, "_ = x == " + v}
+		return []string{"var x " + T, "_ = x == " + paren(v)}
 	case "compare-rev":
-		return []string{"var x " + T, "_ = " + v + " != x"}
+		return []string{"var x " + T, "_ = " + paren(v) + " != x"}
 	case "switch-case":
 		return []string{"var x " + T, "switch x {", "case " + v + ":", "}"}
 	case "append":
@@ -321,24 +361,40 @@ func (c *mcell) lines() []string {
 	case "elem-assign":
 		return []string{"s := make([]" + T + ", 1)", "s[0] = " + v}
 	case "select-send":
-		return []string{"ch := make(chan " + T + ", 1)", "select {", "case ch <- " + v + ":", "default:", "}"}
+		return []string{"ch := make(chan " + chanElem(T) + ", 1)", "select {", "case ch <- " + v + ":", "default:", "}"}
 	case "const-decl":
 		return []string{"const k " + T + " = " + v, "_ = k"}
 	case "type-assert":
 		return []string{"_ = " + paren(v) + ".(" + T + ")"}
 	case "type-switch":
 		return []string{"switch " + paren(v) + ".(type) {", "case " + T + ":", "}"}
+	case "expr":
+		return []string{"_ = " + v}
 	// the value is a type V: the iteration values of a range clause are assigned to x
 	case "range-slice":
 		return []string{"var x " + T, "for _, x = range []" + v + "{} {", "}", "_ = x"}
 	case "range-map-key":
 		return []string{"var x " + T, "for x = range map[" + v + "]int{} {", "}", "_ = x"}
 	case "range-chan":
-		return []string{"var x " + T, "for x = range make(chan " + v + ") {", "}", "_ = x"}
+		return []string{"var x " + T, "for x = range make(chan " + chanElem(v) + ") {", "}", "_ = x"}
 	case "range-array-ptr":
 		return []string{"var x " + T, "for _, x = range &[2]" + v + "{} {", "}", "_ = x"}
 	}
+	if op, ok := strings.CutPrefix(c.ctx, "binop:"); ok {
+		return []string{"var x " + T, "_ = x " + op + " " + paren(v)}
+	}
+	if op, ok := strings.CutPrefix(c.ctx, "unary:"); ok {
+		return []string{"_ = " + op + paren(v)}
+	}
 	panic("c03 matrix: context " + c.ctx)
+}
+
+// chanElem: `chan <-chan int` would be a send-only channel of `chan int`.
+func chanElem(t string) string {
+	if strings.HasPrefix(t, "<-") {
+		return "(" + t + ")"
+	}
+	return t
 }
 
 func paren(v string) string {
@@ -408,6 +464,17 @@ func mRangeValues() []*mvalue {
 	return out
 }
 
+// mNear: some class names the cell as one around its cause (the large neighbourhood of
+// defined-interface-type-methods-ignored is sampled one in three).
+func mNear(c *mcell, k int) bool {
+	for i, cl := range mClasses {
+		if cl.near(c) && (i != 0 || k%3 == 0) {
+			return true
+		}
+	}
+	return false
+}
+
 func systematicCells(c *hx.Ctx) []*mcell {
 	var out []*mcell
 	rangeVals := mRangeValues()
@@ -416,6 +483,9 @@ func systematicCells(c *hx.Ctx) []*mcell {
 			continue
 		}
 		for ci, ctx := range mContexts {
+			if mIgnoresT(ctx) && ti != 0 {
+				continue
+			}
 			vals := mValues
 			isRange := strings.HasPrefix(ctx, "range-")
 			if isRange {
@@ -428,15 +498,15 @@ func systematicCells(c *hx.Ctx) []*mcell {
 					}
 					// typed values: two contexts per (value, type) pair, moved by the seed;
 					// untyped values (the delicate rules) in every context
-					if !v.untyped() {
-						n := len(mContexts) - 4
+					if !v.untyped() && !mIgnoresT(ctx) && !mNear(&mcell{ctx: ctx, t: t, v: v}, vi+ci+int(c.Seed)) {
+						n := len(mContexts) - mRangeContexts
 						if isRange {
 							if (vi+ti+int(c.Seed))%4 != ci-n {
 								continue
 							}
 						} else {
 							k := (vi*5 + ti*3 + int(c.Seed)) % n
-							if ci != k && ci != (k+11)%n {
+							if ci != k && ci != (k+11)%n && ci != (k+29)%n {
 								continue
 							}
 						}
@@ -455,62 +525,82 @@ type mgen struct{ r *proto.Rand }
 
 func (g *mgen) typ() *mtype { return mTypes[g.r.Intn(len(mTypes))] }
 
-func (g *mgen) varOf(t *mtype) *mvalue {
+func mVarOf(t *mtype) *mvalue {
 	return &mvalue{src: fmt.Sprintf("v%d", t.idx), cat: "var", typ: t}
 }
+
+// mWrap builds the value `wrapper(in)` of type t: kind is the context of the cell (kind, t, in)
+// that the wrapper contains.
+func mWrap(kind string, t *mtype, in *mvalue) *mvalue {
+	T := t.src
+	var src string
+	switch kind {
+	case "conversion":
+		src = strings.TrimPrefix((&mcell{ctx: "conversion", t: t, v: in}).lines()[0], "_ = ")
+	case "slice-lit":
+		src = "[]" + T + "{" + in.src + "}[0]"
+	case "arg":
+		src = "func(x " + T + ") " + T + " { return x }(" + in.src + ")"
+	case "return":
+		src = "func() " + T + " { return " + in.src + " }()"
+	case "struct-lit":
+		src = "struct{ F " + T + " }{" + in.src + "}.F"
+	case "map-lit-value":
+		src = "map[int]" + T + "{1: " + in.src + "}[1]"
+	}
+	return &mvalue{src: src, cat: "nested", typ: t, simple: mVarOf(t), wrap: kind,
+		subs:  append(append([]*mcell{}, in.subs...), &mcell{ctx: kind, t: t, v: in}),
+		parts: []*mvalue{in}, build: func(p []*mvalue) *mvalue { return mWrap(kind, t, p[0]) }}
+}
+
+// mBinary builds `(a op b)`; mUnary `op(a)`. Their type is the type of the left operand, untyped
+// bool for comparisons.
+func mBinary(op string, a, b *mvalue) *mvalue {
+	v := &mvalue{src: "(" + a.src + " " + op + " " + b.src + ")", cat: "nested-binary", typ: a.typ, op: op,
+		subs:  append(append([]*mcell{}, a.subs...), b.subs...),
+		parts: []*mvalue{a, b}, build: func(p []*mvalue) *mvalue { return mBinary(op, p[0], p[1]) }}
+	switch op {
+	case "==", "!=", "<", ">=":
+		v.typ = nil
+	}
+	return v
+}
+
+func mUnary(op string, a *mvalue) *mvalue {
+	return &mvalue{src: op + "(" + a.src + ")", cat: "nested-unary", typ: a.typ, op: op, subs: a.subs,
+		parts: []*mvalue{a}, build: func(p []*mvalue) *mvalue { return mUnary(op, p[0]) }}
+}
+
+var mWrapKinds = []string{"conversion", "conversion", "slice-lit", "arg", "return", "struct-lit", "map-lit-value"}
 
 func (g *mgen) value(depth int) *mvalue {
 	if depth <= 0 {
 		return mValues[g.r.Intn(len(mValues))]
 	}
 	in := g.value(depth - 1)
-	sub := func(ctx string, t *mtype) []*mcell {
-		return append(append([]*mcell{}, in.subs...), &mcell{ctx: ctx, t: t, v: in})
-	}
 	// a wrapper that is likely to type-check: prefer the type of the inner value
 	t := g.typ()
 	if in.typ != nil && g.r.Intn(3) != 0 {
 		t = in.typ
 	}
-	nv := func(src string, ctx string) *mvalue {
-		return &mvalue{src: src, cat: "nested", typ: t, subs: sub(ctx, t), simple: g.varOf(t)}
+	switch k := g.r.Intn(12); {
+	case k < len(mWrapKinds):
+		return mWrap(mWrapKinds[k], t, in)
+	case k == 7:
+		return mUnary("", in) // parentheses
+	case k == 8:
+		return mBinary(g.r.Pick([]string{"==", "!=", "<", ">="}), in, g.value(depth-1))
+	case k == 9:
+		return mUnary(g.r.Pick([]string{"!", "-", "^"}), in)
+	case k == 10:
+		return mBinary(g.r.Pick([]string{"+", "-", "&&", "|", "*"}), in, g.value(depth-1))
 	}
-	T := t.src
-	switch g.r.Intn(12) {
-	case 0, 1:
-		c := &mcell{ctx: "conversion", t: t, v: in}
-		return nv(strings.TrimPrefix(c.lines()[0], "_ = "), "conversion")
-	case 2:
-		return &mvalue{src: "(" + in.src + ")", cat: in.cat, typ: in.typ, subs: in.subs, simple: in.simple}
-	case 3:
-		return nv("[]"+T+"{"+in.src+"}[0]", "slice-lit")
-	case 4:
-		return nv("func(x "+T+") "+T+" { return x }("+in.src+")", "arg")
-	case 5:
-		return nv("func() "+T+" { return "+in.src+" }()", "return")
-	case 6:
-		return nv("struct{ F "+T+" }{"+in.src+"}.F", "struct-lit")
-	case 7:
-		return nv("map[int]"+T+"{1: "+in.src+"}[1]", "map-lit-value")
-	case 8:
-		w := g.value(depth - 1)
-		op := g.r.Pick([]string{"==", "!=", "<", ">="})
-		return &mvalue{src: "(" + in.src + " " + op + " " + w.src + ")", cat: "nested", subs: append(append([]*mcell{}, in.subs...), w.subs...),
-			simple: &mvalue{src: "ga < gb", cat: "ubool"}}
-	case 9:
-		return &mvalue{src: "!(" + in.src + ")", cat: "nested", typ: in.typ, subs: in.subs, simple: in.simple}
-	case 10:
-		w := g.value(depth - 1)
-		op := g.r.Pick([]string{"+", "-", "&&", "|", "*"})
-		return &mvalue{src: "(" + in.src + " " + op + " " + w.src + ")", cat: "nested", typ: in.typ, subs: append(append([]*mcell{}, in.subs...), w.subs...), simple: in.simple}
-	default:
-		return &mvalue{src: "(" + in.src + " << gsh)", cat: "nested", typ: in.typ, subs: in.subs, simple: in.simple}
-	}
+	return mBinary("<<", in, &mvalue{src: "gsh", cat: "var", typ: mT("uint")})
 }
 
 func (g *mgen) program() *mprog {
 	p := &mprog{kind: "matrix:random-nested"}
-	n := len(mContexts) - 4
+	n := len(mContexts) - mRangeContexts
 	for i, k := 0, 1+g.r.Intn(3); i < k; i++ {
 		v := g.value(1 + g.r.Intn(2))
 		t := g.typ()
@@ -537,30 +627,14 @@ func mClause(r mresult) string {
 	return cl
 }
 
-// evalAll evaluates the sources on Build and go/types, on several goroutines (each evaluation is
-// independent; the results are stored by index, so the run stays deterministic).
+// evalAll evaluates the sources on Build and go/types, one after the other: concurrent calls of
+// scriggo.Build race on the type infos of the universe block (go test -race), so the evaluation
+// is not spread over goroutines (≈ 80 µs per program).
 func evalAll(srcs []string) []mresult {
 	out := make([]mresult, len(srcs))
-	theImporter.Import("tp")
-	theImporter.Import("strings")
-	workers := runtime.GOMAXPROCS(0)
-	if workers > 8 {
-		workers = 8
+	for i, s := range srcs {
+		out[i] = mresult{buildReal(s), checkTypes(s)}
 	}
-	if os.Getenv("C03_MATRIX_SERIAL") != "" {
-		workers = 1
-	}
-	var wg sync.WaitGroup
-	for w := 0; w < workers; w++ {
-		wg.Add(1)
-		go func(w int) {
-			defer wg.Done()
-			for i := w; i < len(srcs); i += workers {
-				out[i] = mresult{buildReal(srcs[i]), checkTypes(srcs[i])}
-			}
-		}(w)
-	}
-	wg.Wait()
 	return out
 }
 
@@ -570,7 +644,8 @@ func mEval(p *mprog) mresult {
 }
 
 // mShrink: delete cells; replace a cell with a nested value by one of the cells the value is made
-// of, or by the same cell over a plain variable of the value's type.
+// of, by the bare expression statement `_ = v`, or by the same cell over a simpler value (a
+// variable of the value's type, an operand, the value over simpler operands).
 func mShrink(p *mprog, cl string) *mprog {
 	failing := func(q *mprog) bool { return len(q.cells) > 0 && mClause(mEval(q)) == cl }
 	cur := &mprog{cells: append([]*mcell{}, p.cells...), kind: p.kind}
@@ -587,8 +662,11 @@ func mShrink(p *mprog, cl string) *mprog {
 		for i, c := range cur.cells {
 			var cands []*mcell
 			cands = append(cands, c.v.subs...)
-			if c.v.simple != nil {
-				cands = append(cands, &mcell{ctx: c.ctx, t: c.t, v: c.v.simple})
+			if c.ctx != "expr" && !strings.HasPrefix(c.ctx, "range-") {
+				cands = append(cands, &mcell{ctx: "expr", t: mTypes[0], v: c.v})
+			}
+			for _, a := range c.v.alts() {
+				cands = append(cands, &mcell{ctx: c.ctx, t: c.t, v: a})
 			}
 			for _, cand := range cands {
 				q := &mprog{kind: cur.kind, cells: append([]*mcell{}, cur.cells...)}
@@ -606,18 +684,216 @@ func mShrink(p *mprog, cl string) *mprog {
 	return cur
 }
 
-// mclass: a recorded finding as a prediction over the coordinates of a cell.
+// ---- classes of recorded findings ----
+
+// mclass: a recorded finding as a PREDICTION: from the coordinates of a cell and the reference's
+// verdict on its program (never from what Build did), the clause with which the cell fails, ""
+// when the class predicts nothing for the cell.
 type mclass struct {
-	id     string
-	clause string
-	pred   func(c *mcell) bool
+	id      string
+	predict func(c *mcell, o typesOutcome) string
+	// witness: the cell whose program is the finding's recorded minimal input
+	// (known_findings.json); it must still fail and fall into this class
+	witness [3]string
+	// near: the cells around the cause (coordinates only, no oracle; the near misses are among
+	// them): the quick tier, which samples the typed values, always runs these, so that the
+	// precision of the class is measured on every run
+	near func(c *mcell) bool
 }
 
-var mClasses = []mclass{}
+func mValueBySrc(src string) *mvalue {
+	for _, v := range mValues {
+		if v.src == src {
+			return v
+		}
+	}
+	if t := mTypeBySrc[src]; t != nil {
+		return &mvalue{src: src, cat: "rangeelem", typ: t}
+	}
+	panic("c03 matrix: no value " + src)
+}
 
-func mClassOf(c *mcell, cl string) string {
+func (k mclass) witnessCell() *mcell {
+	return &mcell{ctx: k.witness[0], t: mT(k.witness[1]), v: mValueBySrc(k.witness[2])}
+}
+
+const (
+	mAccepts = "accepts-what-go/types-rejects"
+	mRejects = "rejects-what-go/types-accepts"
+	mPanics  = "build-panics"
+)
+
+func hasAny(s string, subs ...string) bool {
+	for _, x := range subs {
+		if strings.Contains(s, x) {
+			return true
+		}
+	}
+	return false
+}
+
+var mRecvResult = regexp.MustCompile(`\) <-chan`)
+
+func mIsLitCtx(ctx string) bool {
+	return ctx == "slice-lit" || ctx == "array-lit-index" || ctx == "map-lit-key" || ctx == "map-lit-value"
+}
+
+func mIsStruct(t *mtype) bool { return t != nil && (t.cls == "struct" || t.cls == "native-struct") }
+
+// mStructArith: the cell is `x OP y` with OP an arithmetic operator and both operands of the same
+// struct type (the "binop:" contexts, or the bare expression a random program shrinks to).
+func mStructArith(c *mcell) bool {
+	arith := func(op string) bool {
+		switch op {
+		case "+", "-", "*", "/", "%", "&", "|", "^", "&^":
+			return true
+		}
+		return false
+	}
+	if op, ok := strings.CutPrefix(c.ctx, "binop:"); ok {
+		return arith(op) && mIsStruct(c.t) && c.v.typ == c.t
+	}
+	if c.v.cat == "nested-binary" && len(c.v.parts) == 2 && arith(c.v.op) {
+		a, b := c.v.parts[0], c.v.parts[1]
+		return len(a.parts) == 0 && len(b.parts) == 0 && mIsStruct(a.typ) && a.typ == b.typ
+	}
+	return false
+}
+
+// mScriggoType: the type is declared (or composed from a type declared) in the program's own
+// source, as opposed to predeclared types, literals over them and the native package's types.
+func mScriggoType(t *mtype) bool {
+	for _, id := range mIdent.FindAllString(t.src, -1) {
+		if d, ok := mDecls[id]; ok && strings.HasPrefix(d, "type ") {
+			return true
+		}
+	}
+	return false
+}
+
+// mAssignLike: the contexts decided by assignability, convertibility or comparability of v and T.
+func mAssignLike(ctx string) bool {
+	return !(strings.HasPrefix(ctx, "binop:") || mIgnoresT(ctx) || ctx == "const-decl" || ctx == "type-assert" || ctx == "type-switch")
+}
+
+// predictDefinedInterface: `type MyErr error` — a type defined in Scriggo source over an interface
+// WITH methods. types.Implements says "a Scriggo type has no methods" and "every type implements
+// an interface declared in Scriggo source": (1) a value of a Go (non-Scriggo) type is assignable,
+// convertible and comparable to MyErr whatever its methods; (2) a MyErr value is assignable only
+// to empty interfaces, not to error; (3) x.(T), a type switch on, and a comparison with a MyErr
+// value accept every Go type T.
+func predictDefinedInterface(c *mcell, o typesOutcome) string {
+	valueIsMyErr := c.v.typ != nil && c.v.typ.src == "MyErr"
+	isCmp := c.ctx == "compare" || c.ctx == "compare-rev" || c.ctx == "switch-case"
+	comparable := func(t *mtype) bool { return t.cls != "func" && t.cls != "slice" && t.cls != "map" }
+	switch {
+	case c.t.src == "MyErr" && c.v.typ != nil && !valueIsMyErr && !mScriggoType(c.v.typ) && !o.OK && len(o.Classes) == 1 && mAssignLike(c.ctx):
+		if c.ctx == "conversion" && c.v.cat == "tconst" || isCmp && !comparable(c.v.typ) ||
+			c.ctx == "variadic" && c.v.cat == "conv" && c.v.typ.cls == "func" {
+			return "" // constants are converted by another branch; operands that cannot be compared at all
+		}
+		return mAccepts
+	case valueIsMyErr && c.t.src != "MyErr" && c.t.cls == "iface-method" && o.OK && mAssignLike(c.ctx) && !isCmp:
+		return mRejects
+	case valueIsMyErr && !o.OK && !mScriggoType(c.t) && (isCmp && comparable(c.t) || c.ctx == "type-assert" || c.ctx == "type-switch"):
+		return mAccepts
+	}
+	return ""
+}
+
+// The classes. Each states its cause as the code has it; see known_findings.json for the texts.
+var mClasses []mclass
+
+func init() {
+	mClasses = []mclass{
+		{"defined-interface-type-methods-ignored", predictDefinedInterface, [3]string{"var-decl", "MyErr", mVarOf(mT("int")).src},
+			func(c *mcell) bool { return c.t.src == "MyErr" || c.v.typ != nil && c.v.typ.src == "MyErr" }},
+		// append(s, nil): the checker calls setValue on the predeclared nil while converting the
+		// argument to the element type (every nil-able element type)
+		{"append-nil-argument-panics", func(c *mcell, o typesOutcome) string {
+			if c.ctx == "append" && c.v.cat == "nil" && o.OK {
+				return mPanics
+			}
+			return ""
+		}, [3]string{"append", "any", "nil"},
+			func(c *mcell) bool { return c.ctx == "append" && (c.v.cat == "nil" || c.v.cat == "uconst-int") }},
+		// a type switch does not check that the type of a case can implement the interface of the
+		// switched value (the type assertion x.(T) does)
+		{"type-switch-impossible-case-accepted", func(c *mcell, o typesOutcome) string {
+			if c.ctx == "type-switch" && !o.OK && len(o.Classes) == 1 && strings.Contains(o.Msg, "impossible type switch case") {
+				return mAccepts
+			}
+			return ""
+		}, [3]string{"type-switch", "int", mVarOf(mT("error")).src},
+			func(c *mcell) bool {
+				return c.ctx == "type-switch" && c.v.typ != nil && strings.HasPrefix(c.v.typ.cls, "iface")
+			}},
+		// the parser does not take `<-chan T` as an unparenthesised function result
+		{"function-result-receive-channel-syntax-error", func(c *mcell, o typesOutcome) string {
+			if o.OK && mRecvResult.MatchString(strings.Join(c.lines(), "\n")) {
+				return mRejects
+			}
+			return ""
+		}, [3]string{"return", "<-chan int", "nil"},
+			func(c *mcell) bool { return c.ctx == "return" && c.t.cls == "chan" }},
+		// T(c) with c a typed constant and T an interface with methods: the conversion of a constant
+		// goes through convert's constant branch, which only knows empty interfaces
+		{"typed-constant-to-method-interface-conversion-rejected", func(c *mcell, o typesOutcome) string {
+			if c.ctx == "conversion" && c.v.cat == "tconst" && c.t.cls == "iface-method" && c.t.src != "MyErr" && o.OK {
+				return mRejects
+			}
+			return ""
+		}, [3]string{"conversion", "tp.Stringer", "tp.Dur(1)"},
+			func(c *mcell) bool {
+				return c.ctx == "conversion" && c.v.cat == "tconst" && strings.HasPrefix(c.t.cls, "iface")
+			}},
+		// the conversion of a slice to an array type (Go 1.20) is not implemented
+		{"slice-to-array-conversion-unsupported", func(c *mcell, o typesOutcome) string {
+			if c.ctx == "conversion" && c.t.cls == "array" && c.v.typ != nil && c.v.typ.cls == "slice" && o.OK {
+				return mRejects
+			}
+			return ""
+		}, [3]string{"conversion", "[2]int", mVarOf(mT("[]int")).src},
+			func(c *mcell) bool { return c.ctx == "conversion" && (c.t.cls == "array" || c.t.src == "*[2]int") }},
+		// an element or key `T{…}` (literal type spelled out) of a composite literal whose element or
+		// key type is *T is taken as if the & had been elided
+		{"composite-literal-element-pointer-type-accepts-value-literal", func(c *mcell, o typesOutcome) string {
+			if mIsLitCtx(c.ctx) && c.t.cls == "ptr" && c.v.cat == "lit" && c.v.typ != nil && c.t.src == "*"+c.v.typ.src && !o.OK {
+				return mAccepts
+			}
+			return ""
+		}, [3]string{"slice-lit", "*St", "St{}"},
+			func(c *mcell) bool {
+				return mIsLitCtx(c.ctx) && c.t.cls == "ptr" && (c.v.cat == "lit" || c.v.cat == "addr")
+			}},
+		// x OP y with both operands of the same struct type: the operator table is indexed by
+		// reflect.Kind and ends before reflect.Struct
+		// f(T(x)) with f variadic, T(x) its only variadic argument and T a function type: the
+		// conversion is taken for a call whose results are spread over the parameters
+		{"variadic-argument-conversion-to-function-type-panics", func(c *mcell, o typesOutcome) string {
+			isConv := c.v.cat == "conv" || c.v.wrap == "conversion"
+			// (… or that the checker accepts because of defined-interface-type-methods-ignored)
+			if c.ctx == "variadic" && isConv && c.v.typ != nil && c.v.typ.cls == "func" && (o.OK || c.t.src == "MyErr" && !mScriggoType(c.v.typ)) {
+				return mPanics
+			}
+			return ""
+		}, [3]string{"variadic", "func()", "(func())(" + mVarOf(mT("func()")).src + ")"},
+			func(c *mcell) bool { return (c.ctx == "variadic" || c.ctx == "arg") && c.v.cat == "conv" }},
+		{"arithmetic-on-struct-operands-panics", func(c *mcell, o typesOutcome) string {
+			if mStructArith(c) {
+				return mPanics
+			}
+			return ""
+		}, [3]string{"binop:+", "struct{}", mVarOf(mT("struct{}")).src},
+			func(c *mcell) bool {
+				return strings.HasPrefix(c.ctx, "binop:") && (mIsStruct(c.t) || c.t.cls == "array") && c.v.typ != nil && c.v.typ.cls == c.t.cls
+			}},
+	}
+}
+
+func mClassOf(c *mcell, o typesOutcome, cl string) string {
 	for _, k := range mClasses {
-		if k.clause == cl && k.pred(c) {
+		if k.predict(c, o) == cl {
 			return k.id
 		}
 	}
@@ -640,13 +916,33 @@ func runMatrix(c *hx.Ctx) {
 	}
 	results := evalAll(srcs)
 
-	type prec struct{ predicted, cameTrue int; firstPass string }
+	// the recorded witness of every class must still fail and fall into its own class
+	// (otherwise the entry suppresses nothing)
+	for _, k := range mClasses {
+		w := &mprog{cells: []*mcell{k.witnessCell()}, kind: "matrix:witness"}
+		r := mEval(w)
+		if os.Getenv("C03_PRINT_WITNESSES") != "" {
+			fmt.Fprintf(os.Stderr, "WITNESS %s %q\n   build: %s %s\n   go/types: %v %s\n", k.id, w.src(), r.real.Class, r.real.Msg, r.orc.OK, r.orc.Msg)
+		}
+		recorded := false
+		for _, f := range c.Findings {
+			recorded = recorded || (f.ID == k.id && findingSrc(f.Minimal) == w.src())
+		}
+		if cl := mClause(r); cl == "" || k.predict(w.cells[0], r.orc) != cl || !recorded {
+			res.AddBreak(proto.Break{Kind: "correspondence", Name: "finding-class-witness: " + k.id, Case: "source", Human: w.src(),
+				Impl: r.real.Class + " " + r.real.Msg, Model: fmt.Sprintf("go/types ok=%v %s; recorded in known_findings.json=%v", r.orc.OK, r.orc.Msg, recorded)})
+		}
+	}
+
+	type prec struct {
+		predicted, cameTrue int
+		firstPass           string
+	}
 	precision := map[string]*prec{}
 	for _, k := range mClasses {
 		precision[k.id] = &prec{}
 	}
 	verbose := os.Getenv("C03_VERBOSE") != ""
-	unknown := 0
 	for i, p := range progs {
 		r := results[i]
 		res.Count(srcs[i], true)
@@ -672,7 +968,7 @@ func runMatrix(c *hx.Ctx) {
 				res.Hist("matrix-untyped-value:" + p.cells[0].t.cls + ":" + acc)
 			}
 		}
-		if i%1999 == 0 {
+		if i%4999 == 0 {
 			res.Sample(map[string]string{"kind": p.kind, "source": srcs[i], "build": r.real.Class + " " + r.real.Msg,
 				"go/types": fmt.Sprintf("ok=%v %s", r.orc.OK, r.orc.Msg)})
 		}
@@ -684,13 +980,19 @@ func runMatrix(c *hx.Ctx) {
 		// precision of the classes: over the systematic cells
 		if p.kind == "matrix:systematic" {
 			for _, k := range mClasses {
-				if k.pred(p.cells[0]) {
+				if want := k.predict(p.cells[0], r.orc); want != "" {
 					pr := precision[k.id]
 					pr.predicted++
-					if cl == k.clause {
+					if cl == want {
 						pr.cameTrue++
-					} else if pr.firstPass == "" {
-						pr.firstPass = srcs[i]
+					} else {
+						if pr.firstPass == "" {
+							pr.firstPass = srcs[i]
+						}
+						if verbose {
+							fmt.Fprintf(os.Stderr, "#### class %s predicts %s, got %q: [%s] build: %s %s | go/types: %v %s\n", k.id, want, cl, p.cells[0].key(),
+								r.real.Class, r.real.Msg, r.orc.OK, r.orc.Msg)
+						}
 					}
 				}
 			}
@@ -698,12 +1000,12 @@ func runMatrix(c *hx.Ctx) {
 		if cl == "" {
 			continue
 		}
-		min := p
-		if len(p.cells) > 1 || p.cells[0].v.subs != nil || p.cells[0].v.simple != nil {
+		min, mr := p, r
+		if len(p.cells) > 1 || len(p.cells[0].v.parts) > 0 {
 			min = mShrink(p, cl)
+			mr = mEval(min)
 		}
 		msrc := min.src()
-		mr := mEval(min)
 		b := proto.Break{Kind: "property", Name: cl, Case: "source", Human: msrc,
 			Impl: mr.real.Class + " " + mr.real.Msg, Model: fmt.Sprintf("go/types ok=%v %s", mr.orc.OK, mr.orc.Msg)}
 		for _, f := range c.Findings {
@@ -711,26 +1013,24 @@ func runMatrix(c *hx.Ctx) {
 				b.Finding = f.ID
 			}
 		}
-		if len(min.cells) == 1 && min.cells[0].v.subs == nil {
-			if fid := mClassOf(min.cells[0], cl); fid != "" {
+		fid := ""
+		if len(min.cells) == 1 {
+			if fid = mClassOf(min.cells[0], mr.orc, cl); fid != "" {
 				b.Finding = c.Known(fid)
 				res.Hist("known-class:" + fid)
 			}
 		}
-		if b.Finding == "" {
-			unknown++
-			if verbose && !seenMin[msrc] {
-				seenMin[msrc] = true
-				cellKey := ""
-				for _, mc := range min.cells {
-					cellKey += "[" + mc.key() + "] "
-				}
-				fmt.Fprintf(os.Stderr, "---- %s (%s) %s\n%s  build: %s %s\n  go/types: ok=%v %s\n", cl, p.kind, cellKey, msrc, mr.real.Class, mr.real.Msg, mr.orc.OK, mr.orc.Msg)
+		if b.Finding == "" && verbose && !seenMin[msrc] {
+			seenMin[msrc] = true
+			cellKey := "class=" + fid + " "
+			for _, mc := range min.cells {
+				cellKey += "[" + mc.key() + "] "
 			}
+			fmt.Fprintf(os.Stderr, "---- %s (%s) %s\n%s  build: %s %s\n  go/types: ok=%v %s\n", cl, p.kind, cellKey, msrc, mr.real.Class, mr.real.Msg, mr.orc.OK, mr.orc.Msg)
 		}
 		res.AddBreak(b)
 	}
-	// precision self-test of the classes
+	// precision self-test of the classes (fixes/FINDING-CLASSES.md, point 3)
 	ids := make([]string, 0, len(precision))
 	for id := range precision {
 		ids = append(ids, id)
@@ -745,7 +1045,7 @@ func runMatrix(c *hx.Ctx) {
 			continue
 		}
 		res.Histogram["class-precision/"+id+"/permille"] = pr.cameTrue * 1000 / pr.predicted
-		if pr.cameTrue*100 < pr.predicted*95 {
+		if pr.cameTrue*100 < pr.predicted*95 || (pr.predicted < 20 && pr.cameTrue != pr.predicted) {
 			res.AddBreak(proto.Break{Kind: "correspondence", Name: "finding-class-too-broad: " + id, Case: "source", Human: pr.firstPass,
 				Impl: fmt.Sprintf("%d of %d predicted cells fail as predicted", pr.cameTrue, pr.predicted)})
 		}
